@@ -104,6 +104,13 @@ func run(r *core.Run) {
 		return
 	}
 	var idx int64
+	// one runner (one fq interpreter session) per format, shared by the phases
+	runners := map[string]*runner{}
+	defer func() {
+		for _, rn := range runners {
+			rn.finish()
+		}
+	}()
 	// phase 0: values with <= 3 nodes and the grid, phase 1 (thorough): 4 node values,
 	// phase 2: the element order family
 	for phase := 0; phase < 3; phase++ {
@@ -133,7 +140,11 @@ func run(r *core.Run) {
 				idx += int64(len(cases)) // keep the global index stable
 				continue
 			}
-			rn := newRunner(r, sp)
+			rn := runners[sp.name]
+			if rn == nil {
+				rn = newRunner(r, sp)
+				runners[sp.name] = rn
+			}
 			done, stopped := 0, false
 			for _, vc := range cases {
 				idx++
@@ -149,7 +160,8 @@ func run(r *core.Run) {
 				rn.value(&vc)
 				done++
 			}
-			rn.finish()
+			rn.flush(false)
+			rn.flush(true)
 			if stopped {
 				r.NotExhaustive("deadline reached inside " + name)
 				r.Count("values_not_reached:"+name, int64(len(cases)-done*max(1, r.ShardN))/int64(max(1, r.ShardN)))
